@@ -13,8 +13,7 @@ OutMatches(o, obs) ==
     CASE o.k = "num"  -> obs.k = "num" /\ obs.tc = o.tc /\ obs.v = o.v
       [] o.k = "mat"  -> obs.k = "mat"
       [] o.k = "none" -> obs.k = "none" \/ ("lax" \in DOMAIN o /\ obs.k = "err")
-      [] o.k = "err"  -> obs.k = "err" /\ (obs.cls = o.cls \/ (o.cls = "TypeOrValue" /\ obs.cls \in {"TypeError", "ValueError"})
-                                            \/ (o.cls = "AnyErr" /\ obs.cls \in {"IndexError", "TypeError", "ValueError"}))
+      [] o.k = "err"  -> obs.k = "err" /\ obs.cls \in {"IndexError", "TypeError", "ValueError"}     \* which of the three: not specified
 HeapMatches(h, e, obs) ==
     \A n \in Names : IF e[n] = Unbound THEN n \notin DOMAIN obs
                      ELSE n \in DOMAIN obs /\ obs[n].tc = h[e[n]].tc /\ obs[n].nr = h[e[n]].nr /\ obs[n].nc = h[e[n]].nc
